@@ -429,16 +429,17 @@ def search_frames(ctx, fd, rebound):
                     vx=off[3] + rng.gauss(0, 1), vy=off[4] + rng.gauss(0, 1), vz=off[5] + rng.gauss(0, 1))
         mode = k % 3
         v1 = v1b = v2 = vt = None
-        if mode != 2 and rng.random() < 0.7:
+        directed = mode != 2 and k < 60     # two first-order sets, both with mass variations of every particle, + their mixed second-order set
+        if mode != 2 and (directed or rng.random() < 0.7):
             v1 = sim.add_variation()
-            if rng.random() < 0.6:
-                v1b = sim.add_variation() if rng.random() < 0.5 else v1
+            if directed or rng.random() < 0.6:
+                v1b = sim.add_variation() if (directed or rng.random() < 0.5) else v1
                 v2 = sim.add_variation(order=2, first_order=v1, first_order_2=v1b)
             if rng.random() < 0.3:
                 vt = sim.add_variation(testparticle=rng.randrange(n))
             for i in range(n, sim.N):
                 p = sim.particles[i]
-                p.m = 0.0 if rng.random() < 0.3 else rng.gauss(0, 0.1)
+                p.m = (rng.choice([-1, 1]) * rng.uniform(0.01, 0.3)) if directed else (0.0 if rng.random() < 0.3 else rng.gauss(0, 0.1))
                 for c in COMPS:
                     setattr(p, c, rng.gauss(0, 1))
         b = snap(sim)
@@ -535,10 +536,36 @@ def search_frames(ctx, fd, rebound):
             fd.fail("iadd:mass", {"A": a0, "B": b0, "result": s1}, "+= changed a mass")
 
 
+def search_slerp(ctx, fd, clib, Rot):
+    """reb_rotation_slerp (C API only): end points, unit norm and constant angular speed along the great arc between unit quaternions"""
+    rng = ctx.rng
+    for k in range(ctx.scale(300, 5000)):
+        ctx.evaluations += 1
+        q1 = [rng.gauss(0, 1) for _ in range(4)]; n1 = math.sqrt(sum(x * x for x in q1)); q1 = [x / n1 for x in q1]
+        q2 = [rng.gauss(0, 1) for _ in range(4)]; n2 = math.sqrt(sum(x * x for x in q2)); q2 = [x / n2 for x in q2]
+        c = sum(a * b for a, b in zip(q1, q2))
+        if abs(c) > 0.999:
+            continue
+        th = math.acos(c)
+        t = rng.choice([0.0, 1.0, rng.random(), rng.random()])
+        r = clib.reb_rotation_slerp(Rot(*q1), Rot(*q2), t)
+        rv = [r.ix, r.iy, r.iz, r.r]
+        sth = math.sin(th)
+        tol = 1e-13 / sth
+        d1 = sum(a * b for a, b in zip(rv, q1)); d2 = sum(a * b for a, b in zip(rv, q2))
+        bad = abs(sum(x * x for x in rv) - 1.0) > tol or abs(d1 - math.cos(t * th)) > tol or abs(d2 - math.cos((1 - t) * th)) > tol
+        if t == 0.0: bad = bad or max(abs(a - b) for a, b in zip(rv, q1)) > tol
+        if t == 1.0: bad = bad or max(abs(a - b) for a, b in zip(rv, q2)) > tol
+        if bad:
+            fd.fail("slerp", {"q1": q1, "q2": q2, "t": t, "result": rv, "angle_to_q1": d1, "expected_cos": math.cos(t * th)},
+                    "reb_rotation_slerp(q1,q2,t) is not the unit quaternion at fraction t of the great arc from q1 to q2")
+
+
 def search(ctx, rebound, clib, Rot, V3):
     import traceback
     fd = Finder(ctx)
-    for name, fn in (("units", search_units), ("rotations", search_rot), ("frames", search_frames)):
+    for name, fn in (("units", search_units), ("rotations", search_rot), ("frames", search_frames),
+                     ("slerp", lambda c, f, r: search_slerp(c, f, clib, Rot))):
         try:
             fn(ctx, fd, rebound)
         except Exception as e:      # the python layer raised on an input the property covers
